@@ -6,7 +6,7 @@
    the bits between the cursor and the next byte boundary: the aligned whole-byte stores of the generated code
    (`buffer[off/8] = (uint8_t) value`) clobber them, later fields and the final padding overwrite them.
    `ser_sim` lifts it to results: same error, or `wrote` of the specification's bits. *)
-From Verif Require Import Wire WireThm WireThmRt Walker Refine RefineDesBase RefineSerBits.
+From Verif Require Import Wire WireThm WireThmRt Walker Refine RefineDesBase RefineSerBits PrimsOn.
 From Coq Require Import Lia ZifyBool ZifyNat ZifyN.
 Local Open Scope nat_scope.
 Ltac Zify.zify_post_hook ::= Z.div_mod_to_equations.
@@ -82,13 +82,16 @@ Qed.
 
 Section Leaf.
   Variable P : prims.
-  Hypothesis HP : prims_ok P.
+  (* the only thing assumed of the primitives: stores of at most 64 bits into buffers of length L they fit into (PrimsOn.set_law) *)
+  Variable L : nat.
+  Hypothesis Hset : set_law P L.
 
   (* a store of m bits of which w count (cursor += w): both the plain store (m = w) and the whole-byte store (m = 8) *)
-  Lemma w_store buf off d w : w <= length d -> off + length d <= length buf -> off + length d <= r8 (off + w) ->
+  Lemma w_store buf off d w : length buf = L -> length d <= 64 ->
+    w <= length d -> off + length d <= length buf -> off + length d <= r8 (off + w) ->
     wrote buf off (firstn w d) (bind (w_set P buf off d) (fun '(b, _) => Ok (b, off + w))).
   Proof.
-    intros Hw Hfit Hr. unfold w_set. rewrite (set_ok P HP) by exact Hfit. cbn [bind].
+    intros HL H64 Hw Hfit Hr. unfold w_set. rewrite (Hset buf off d HL H64) by lia. cbn [bind].
     assert (Hlw : length (firstn w d) = w) by (rewrite firstn_length; lia).
     eexists. rewrite Hlw. split; [reflexivity|]. split; [|split].
     - rewrite !app_length, firstn_length, skipn_length. lia.
@@ -97,46 +100,48 @@ Section Leaf.
     - apply set_frame; assumption.
   Qed.
 
-  Lemma w_set_wrote buf off d : off + length d <= length buf -> wrote buf off d (w_set P buf off d).
+  Lemma w_set_wrote buf off d : length buf = L -> length d <= 64 ->
+    off + length d <= length buf -> wrote buf off d (w_set P buf off d).
   Proof.
-    intros Hfit. pose proof (w_store buf off d (length d) (le_n _) Hfit (r8_ge _)) as H.
-    rewrite firstn_all in H. unfold w_set in *. rewrite (set_ok P HP) in * by exact Hfit. exact H.
+    intros HL H64 Hfit. pose proof (w_store buf off d (length d) HL H64 (le_n _) Hfit (r8_ge _)) as H.
+    rewrite firstn_all in H. unfold w_set in *. rewrite (Hset buf off d HL H64) in * by lia. exact H.
   Qed.
 
   (* alignment padding, a = 1 or 8 *)
-  Lemma w_pad_wrote buf off t : off + padn off (align t) <= length buf ->
+  Lemma w_pad_wrote buf off t : length buf = L -> off + padn off (align t) <= length buf ->
     wrote buf off (repeat false (padn off (align t))) (w_pad P buf off (align t)).
   Proof.
-    intros Hfit. unfold w_pad.
+    intros HL Hfit. unfold w_pad.
     destruct (align_cases t) as [E | E]; rewrite E in *.
     - rewrite padn_1, Nat.mod_1_r. cbn [Nat.eqb repeat]. apply wrote_nil.
     - rewrite padn_8 in *. destruct (Nat.eqb_spec (off mod 8) 0) as [Hz|Hnz].
       + rewrite (pad8_aligned off Hz). cbn [repeat]. apply wrote_nil.
       + assert (Hp : pad8 off = 8 - off mod 8) by (unfold pad8; lia). rewrite Hp in *.
-        apply w_set_wrote. rewrite repeat_length. exact Hfit.
+        apply w_set_wrote; rewrite ?repeat_length; [exact HL | lia | exact Hfit].
   Qed.
 
-  Lemma w_pad8_wrote buf off : off + pad8 off <= length buf ->
+  Lemma w_pad8_wrote buf off : length buf = L -> off + pad8 off <= length buf ->
     wrote buf off (repeat false (pad8 off)) (w_pad P buf off 8).
-  Proof. intros H. exact (w_pad_wrote buf off (TComp false [] None) H). Qed.
+  Proof. intros HL H. exact (w_pad_wrote buf off (TComp false [] None) HL H). Qed.
 
   (* a primitive field *)
-  Lemma w_prim_sim p v buf off : prim_wf p = true -> prim_storage_ok p v = true ->
+  Lemma w_prim_sim p v buf off : prim_wf p = true -> prim_storage_ok p v = true -> length buf = L ->
     length buf mod 8 = 0 -> off + prim_bits p <= length buf ->
     ser_sim buf off (enc_prim p v) (w_prim P p v buf off).
   Proof.
-    intros Hwf Hst Hl Hfit. pose proof (storage_enc p v Hwf Hst) as H. unfold ser_sim, w_prim.
+    intros Hwf Hst HL Hl Hfit.
+    assert (Hp64 : prim_bits p <= 64) by (destruct p; cbn [prim_wf prim_bits] in *; lia). pose proof (storage_enc p v Hwf Hst) as H. unfold ser_sim, w_prim.
     destruct (enc_prim p v) as [bits|e].
     - destruct H as (sb & -> & Hsl & <-).
       assert (Hplain : sb_len p >= prim_bits p ->
                 wrote buf off (firstn (prim_bits p) sb) (w_set P buf off (firstn (prim_bits p) sb))).
-      { intros Hge. apply w_set_wrote. rewrite firstn_length. lia. }
+      { intros Hge. apply w_set_wrote; rewrite ?firstn_length; [exact HL | lia | lia]. }
       assert (Hbyte : prim_bits p <= 8 -> 8 <= sb_len p -> 1 <= prim_bits p -> off mod 8 = 0 ->
                 wrote buf off (firstn (prim_bits p) sb)
                   (bind (w_set P buf off (firstn 8 sb)) (fun '(b, _) => Ok (b, off + prim_bits p)))).
       { intros H8 Hs8 H1 Ha.
         rewrite <- (firstn_firstn_le sb (prim_bits p) 8) by exact H8.
-        apply w_store; rewrite firstn_length; unfold r8, pad8; lia. }
+        apply w_store; rewrite ?firstn_length; unfold r8, pad8; try exact HL; lia. }
       destruct p as [|w sat|w sat|w sat|w]; cbn [prim_bits sb_len prim_wf] in *.
       + destruct (Nat.eqb_spec (off mod 8) 0) as [Ha|Ha]; cbn [andb Nat.leb];
           [apply Hbyte; lia | apply Hplain; lia].
